@@ -268,11 +268,11 @@ Lemma find_In {X} (f : X -> bool) l x : find f l = Some x -> In x l /\ f x = tru
 Proof. intros H. apply find_some in H. exact H. Qed.
 
 Lemma with_refresh_jkt n now cfg c g : g_jkt (with_refresh n now cfg c g) = g_jkt g.
-Proof. unfold with_refresh. destruct (should_issue_refresh cfg c (g_type g)); reflexivity. Qed.
+Proof. unfold with_refresh. destruct (should_issue_refresh cfg c (g_type g) (g_active g)); reflexivity. Qed.
 Lemma with_refresh_x5t n now cfg c g : g_x5t (with_refresh n now cfg c g) = g_x5t g.
-Proof. unfold with_refresh. destruct (should_issue_refresh cfg c (g_type g)); reflexivity. Qed.
+Proof. unfold with_refresh. destruct (should_issue_refresh cfg c (g_type g) (g_active g)); reflexivity. Qed.
 Lemma with_refresh_id n now cfg c g : g_id (with_refresh n now cfg c g) = g_id g.
-Proof. unfold with_refresh. destruct (should_issue_refresh cfg c (g_type g)); reflexivity. Qed.
+Proof. unfold with_refresh. destruct (should_issue_refresh cfg c (g_type g) (g_active g)); reflexivity. Qed.
 
 (* ------------------------------------------------------------------ *)
 (* 5. use of a bound token                                             *)
